@@ -53,6 +53,12 @@ def run(rep, tier, seed, summary):
               distribution=dict(per_command=kinds, failing=nbad,
                                 with_transport_id_lists=sum(1 for c in cases if c["kind"] == "prout_basic" and c["kw"].get("transport_ids")),
                                 xcopy_with_descriptors=sum(1 for c in cases if c["kind"].startswith("xcopy") and (c["kw"].get("segment_descriptor_list")))))
+    # the regenerated builder bodies (the subject of the C05_py_* theorems) under Model/Py.v against the real functions
+    from corr import pyfuncs
+    pybad, _pc, _pr = pyfuncs.run(rep, tier, seed, summary)
+    if pybad:
+        rep.oblig("correspondence:regenerated builder / decoder bodies (Gen/PyFuncs.v under Model/Py.v) agree with the implementation", False,
+                  "; ".join("%s: implementation %s" % ((b.get("case") or {}).get("fn"), str(b.get("impl"))[:120]) for b in pybad[:3]))
     # model vs code: the PR OUT lists are encode_dict over the regenerated tables; _pad4_len is the regenerated expression
     with vlib.Lock():
         vlib.coq_make(["Model/ParserInst.vo", "Model/CorrUtil.vo", "Gen/Builders.vo"])
